@@ -641,11 +641,49 @@ func (b *BaseStore) Load(ctx context.Context, amount int) error {
 		span.AddEvent("store-index-updated")
 	}
 
+	// the fetcher silently skips the entries it cannot get: after an unlimited load (a
+	// limited one leaves older entries out on purpose), entries referenced by the loaded
+	// ones may be missing. Nothing would fetch them later, as replication stops at the
+	// entries that are already in the log: hand them to the replicator, which fetches
+	// them or keeps them as failed and retries them with the next replication request
+	if amount < 0 {
+		if missing := b.missingAncestors(); len(missing) > 0 {
+			span.AddEvent("store-missing-ancestors")
+			verifhook.Point("store.sync_spawn", b.id)
+			go b.Replicator().Load(ctx, missing)
+		}
+	}
+
 	if err := b.emitters.evtReady.Emit(stores.NewEventReady(b.Address(), b.OpLog().Heads().Slice())); err != nil {
 		return fmt.Errorf("unable to emit event ready: %w", err)
 	}
 
 	return nil
+}
+
+// missingAncestors lists, as hash-only entries, the entries that the entries of the
+// log point to (next and refs) and that are not in the log themselves.
+func (b *BaseStore) missingAncestors() []ipfslog.Entry {
+	oplog := b.OpLog()
+	seen := map[cid.Cid]struct{}{}
+	missing := []ipfslog.Entry{}
+
+	for _, e := range oplog.GetEntries().Slice() {
+		for _, links := range [][]cid.Cid{e.GetNext(), e.GetRefs()} {
+			for _, h := range links {
+				if _, ok := seen[h]; ok || !h.Defined() {
+					continue
+				}
+				seen[h] = struct{}{}
+
+				if _, ok := oplog.Get(h); !ok {
+					missing = append(missing, &entry.Entry{Hash: h})
+				}
+			}
+		}
+	}
+
+	return missing
 }
 
 func (b *BaseStore) Sync(ctx context.Context, heads []ipfslog.Entry) error {
